@@ -168,6 +168,35 @@ func runC22(c *Ctx) {
 			}
 		})
 		c.CheckAt("C22.R2", "(*centrifuge.Node).MapStreamRead: trimmed stream ⇒ ErrorUnrecoverablePosition", w.Pos(msr.Pos()), okTrim, "a read that starts beyond since+1 means entries were trimmed: the position is unrecoverable")
+		// the same loss with nothing left to return: no publications although the top is ahead of since
+		okEmpty := false
+		EachInstr(msr, func(in ssa.Instruction) {
+			r, ok := in.(*ssa.Return)
+			if !ok {
+				return
+			}
+			vals := retVals(r)
+			if len(vals) != 2 || !strings.Contains(D(vals[1]), "ErrorUnrecoverablePosition") {
+				return
+			}
+			ahead := Guarded(r, func(g Guard) bool {
+				b, ok := g.Cond.(*ssa.BinOp)
+				return ok && g.Pol && b.Op == token.GTR && strings.HasSuffix(D(b.X), "Position.Offset") && strings.HasSuffix(D(b.Y), "Since.Offset")
+			})
+			empty := Guarded(r, func(g Guard) bool {
+				b, ok := g.Cond.(*ssa.BinOp)
+				if !ok || !strings.HasPrefix(D(b.X), "len(") || !strings.Contains(D(b.X), "Publications") {
+					return false
+				}
+				z, isZ := constIntOf(b.Y)
+				return isZ && z == 0 && ((b.Op == token.EQL && g.Pol) || (b.Op == token.GTR && !g.Pol) || (b.Op == token.NEQ && !g.Pol))
+			})
+			if ahead && empty {
+				okEmpty = true
+			}
+		})
+		c.CheckAt("C22.R2", "(*centrifuge.Node).MapStreamRead: nothing returned while the stream top is ahead of the known offset ⇒ ErrorUnrecoverablePosition", w.Pos(msr.Pos()), okEmpty,
+			"a stream whose entries all expired or were trimmed keeps its top offset: a catch-up read then returns no publications and, without this test, the live transition tells the client it is up to date although every change after its position was lost")
 	}
 	// R3
 	sp := c.Fn("C22.R3", "centrifuge", "(*Client).handleMapStatePhase")
